@@ -140,6 +140,9 @@ CHECKS = {
                "Seeded search over chunk sequences, part completion orders and part/complete failures against the real ObjectWriter; "
                "object equals the concatenation after shutdown, nothing visible before, nothing left after abort/drop/failure.",
                required_probes=["shutdown-ok", "multipart"]),
+    "C38": chk([e1("seq", 1)], SEQ_RULE + "; the main party's session has index/metadata cache capacities drawn from {0, 2 kB, 64 MiB}; a second table shares the session; extra steps: append by another party followed by refresh, and drop-all-objects + re-create at the same URI within the session",
+               "Seeded histories; every read through the long-lived shared session (scan, counts, indexed filters, load_indices) must equal the model and the same read through a fresh session.",
+               required_probes=["foreign-write", "recreated-at-same-uri"]),
     "C39": chk([{"engine": "e6", "opts": [], "weight": 1, "minimise": False}],
                "one run = a table with 1-2 MemWAL regions and a short sequential prefix, then 2-3 parties each performing 1-4 MemWAL operations "
                "(advance / append entry / seal / flush / merge / owner change / trim) chosen from the state they read, under the seeded scheduler at the storage gate; "
@@ -147,6 +150,9 @@ CHECKS = {
                "Seeded search over interleavings of MemWAL writers; a monitor over every committed version checks unique, consecutive generations, only the latest open, "
                "forward-only states, trimmed generations staying gone; party results show that no two concurrent changes of one generation both committed.",
                required_probes=["overlapped", "ok-advance"]),
+    "C42": chk([e1("seq", 1)], SEQ_RULE + "; at the end every object under the table root is copied byte for byte to another prefix of the simulated store, the original is deleted, and a fresh party opens the copy",
+               "Partial claim (object-store layout, not the local-filesystem fast paths): every version, tag and indexed query of the copy equals the model snapshots of the original.",
+               required_probes=["objects-copied"]),
     "C41": chk([{"engine": "e4", "opts": [], "weight": 1, "minimise": False}],
                "one run = a random batch sequence and memory limit (0 .. unlimited, so the spill goes to a real temp file or stays in memory), "
                "one writer and 1-3 readers opened before/during/after writing (some twice, some dropped early); the simulator interleaves the "
@@ -159,7 +165,7 @@ CHECKS = {
 }
 
 # properties whose checks are registered in MANIFEST.json (clean on the unchanged tree)
-REGISTERED = ["C01", "C02", "C03", "C04", "C05", "C06", "C07", "C08", "C09", "C10", "C11", "C12", "C13", "C14", "C15", "C16", "C17", "C18", "C19", "C20", "C24", "C30", "C31", "C33", "C37", "C39", "C41"]
+REGISTERED = ["C01", "C02", "C03", "C04", "C05", "C06", "C07", "C08", "C09", "C10", "C11", "C12", "C13", "C14", "C15", "C16", "C17", "C18", "C19", "C20", "C24", "C30", "C31", "C33", "C37", "C38", "C39", "C41", "C42"]
 
 PURE = "pure function of its inputs: no task, timer, storage call, clock, fault or second party for a scheduler or fault injector to decide (DESIGN.md section 6)"
 NOT_APPLICABLE = {
